@@ -38,7 +38,13 @@ def canon(line):
       ETag / Block2 and the listing of /.well-known/core: C20, C09) and other fixes to /repo may
       legitimately change them.  Empty messages (code 0.00) must stay empty: compared in full."""
     if "H[" in line:
-        return line
+        # the value of an Observe option in a response (sequence number of the resource) is
+        # C11's subject
+        def fixo(m):
+            t, c, mid, k, o, p, wd = m.groups()
+            o = ",".join("6:*" if it.startswith("6:") else it for it in o.split(","))
+            return "TX[t=%s c=%s m=%s k=%s o=%s p=%s%s]" % (t, c, mid, k, o, p, wd or "")
+        return TX_RE.sub(fixo, line)
 
     def fix(m):
         t, c, mid, k, o, p, wd = m.groups()
@@ -70,7 +76,7 @@ def sweeps(tier):
     """exhaustive leaf sweeps (deterministic)"""
     out = []
     T0 = {"mpr": 0, "known": [], "res": [(b"a", 127, 0), (b"b", 1, 8)], "unk": None, "prx": None}
-    T1 = {"mpr": 1, "known": [65, 2049], "res": [(b"a", 127, 8), (b"b", 127, 0)], "unk": (4, 8), "prx": None}
+    T1 = {"mpr": 1, "known": [65, 2049], "res": [(b"a", 127, 8, 1), (b"b", 127, 0)], "unk": (4, 8), "prx": None}
     T2 = {"mpr": 0, "known": [], "res": [(b"a", 127, 0)], "unk": (127, 0x800), "prx": (127, 0, [b"proxy"])}
     pa = [(G.URI_PATH, b"a")]
 
@@ -121,6 +127,18 @@ def sweeps(tier):
             add(t, "69/-/-", (1, 1, 11, b"\x07", [(G.URI_PATH, b"q")], b""), True, "sweep-mcast")   # 4.04
             add(t, "69/-/-", (1, 1, 11, b"\x07", [(G.URI_PATH, b".well-known"), (G.URI_PATH, b"core")], b""),
                 True, "sweep-mcast")
+    # Observe on an observable resource (registration puts an Observe option in front of what
+    # the handler adds; it is taken off again unless the answer is a 2.xx)
+    TO = {"mpr": 0, "known": [], "res": [(b"a", 127, 0, 1), (b"b", 127, 0, 0)], "unk": None, "prx": None}
+    for path in (b"a", b"b"):
+        for code, extra in ((1, []), (5, [(G.CONTENT_FORMAT, b"")]), (3, [])):
+            for ov in (b"", b"\x00", b"\x01", b"\x02", b"\x00\x00\x01"):
+                for hact in ("69/-/68", "132/-/-", "0/-/-", "65/4=aa/-", "96/-/01", "69/4=aa+6=05/68",
+                             "69/12=28+4=aa/68", "132/6=05+27=06/-", "69/14=01+6=07+4=bb/-", "31/-/-", "64/-/-", "95/4=01/-"):
+                    for ty in (0, 1):
+                        for b2 in (False, True):
+                            o = [(G.URI_PATH, path), (G.OBSERVE, ov)] + extra + ([(G.BLOCK2, b"\x06")] if b2 else [])
+                            add(TO, hact, (ty, code, 21, b"\x0a\x0b", o, b""), False, "sweep-observe")
     # single extra option number
     nums = list(range(0, 320)) + [2047, 2048, 2049, 2050, 2051, 65000, 65001, 65534, 65535]
     if tier == "thorough":
